@@ -1919,9 +1919,28 @@ def shrink_failure(prop: str, f: dict) -> dict:
     return cur
 
 
+def tight_recursion_probe() -> dict:
+    """harness/tight_recursion_probe.py in a process of its own (it plays with the recursion limit): a tree returned under a
+    recursion budget that is too small must not show stack entries pushed inside an abandoned attempt"""
+    import json as _json
+    import subprocess
+    try:
+        from common import REPO as _REPO
+        pr = subprocess.run(["/venv/bin/python", str(Path(__file__).resolve().parent / "tight_recursion_probe.py"), str(_REPO)],
+                            capture_output=True, text=True, timeout=600)
+        return _json.loads(pr.stdout.strip().splitlines()[-1])
+    except Exception as e:  # noqa: BLE001
+        return {"mismatches": [], "runs": 0, "error": f"{type(e).__name__}: {e}"[:200]}
+
+
 def replay(out: Outcome, payload: dict) -> None:
     prop = out.prop
     out.coverage = {"explanation": "replay of one recorded case", "evaluations": 1, "distinct_nontrivial": 2, "samples": [payload.get("what", "")]}
+    if payload.get("kind") == "tight-recursion":
+        res = tight_recursion_probe()
+        if res["mismatches"]:
+            out.violation({**payload, **res["mismatches"][0], "kind": "tight-recursion"})
+        return
     if payload.get("kind") == "direct" and (recheck(prop, payload) or recheck_fresh(prop, payload)):
         out.violation(payload)
 
@@ -2017,6 +2036,19 @@ def run_prop(out: Outcome, level_when_proved: str = "proof") -> None:
         msg = replay_known_nullable_trivia()
         if msg:
             out.known.append(msg)
+    if prop == "C05":
+        res_t = tight_recursion_probe()
+        stats["tight_recursion_runs"] = res_t.get("runs", 0)
+        stats["cases"] += res_t.get("runs", 0)
+        if res_t.get("error"):
+            stats["tight_recursion_probe_failed"] = 1
+        for mm in res_t["mismatches"][:2]:
+            out.violation({"kind": "tight-recursion", "grammar": res_t.get("grammar"), **mm,
+                           "input": [ord(c) for c in mm["input"]], "seed": seed(),
+                           "what": "a parse under a recursion budget that is too small returned a tree that shows stack entries pushed inside "
+                                   "an abandoned attempt (a swallowed RecursionError left a checkpoint or snapshot behind)",
+                           "command": "./check C05 --replay <this file>"})
+            reported += 1
     for f in direct:
         key = (f.get("what"), f.get("mode"), f.get("group"))
         if key in seen:
